@@ -409,8 +409,9 @@ class ModuleHandle(object):
         for n in ast_mod:
             if isinstance(n, ast.Delete):
                 # 'del name' at top level: the name is not there to import.
-                deleted = set(t.id for t in n.targets
-                              if isinstance(t, ast.Name))
+                # 'del (a, b)' and 'del [c]' delete through the tuple/list.
+                deleted = set(name for t in n.targets
+                              for name in self._target_names(t))
                 members = [m for m in members if m not in deleted]
             else:
                 members.extend(self._member_from_node(n))
